@@ -165,7 +165,17 @@ class _SpecRaggedMixin:
         return rows, cols
 
     def astype(self, dtype):
-        return SpecRagged(self._shape, self.cell, self.kind, dtype, self.name)
+        from ..sym.arr import sort_of_dtype
+        dtype = np.dtype(dtype)
+        nk = sort_of_dtype(dtype)
+        cell = self.cell
+        if self.kind == "elem" and nk == "elem" and dtype != self._dtype:
+            from ..sym.arr import UF, ElemSort
+            cast = UF("cast_" + dtype.name, ElemSort, ElemSort)       # same uninterpreted cast as SymArr.astype
+            return SpecRagged(self._shape, lambda r, c_: cast(cell(r, c_)), "elem", dtype, f"astype({self.name})")
+        if nk == self.kind:
+            return SpecRagged(self._shape, self.cell, self.kind, dtype, self.name)
+        return SpecRagged(self._shape, lambda r, c_: coerce_term(cell(r, c_), nk), nk, dtype, f"astype({self.name})")
 
     def __repr__(self):
         return f"SpecRagged({self.name})"
